@@ -358,6 +358,18 @@ class Stream:
         return 1 if fails else 0
 
 
+def replay_by_rerun(ctx, rp, rerun):
+    """Replay for streams that do not fit Stream.replay: `rerun(ctx)` runs the stream on the recorded case, reporting into ctx.rep."""
+    before = len(ctx.rep.failures)
+    rerun(ctx)
+    new = ctx.rep.failures[before:]
+    print(json.dumps({"failures": [{"kind": f["kind"], "detail": f["detail"]} for f in new]}, default=str)[:4000])
+    if any(f["kind"] in ("pred", "oracle") for f in new):
+        print(f"VIOLATION property={ctx.rep.prop} replay={rp.get('_path', '<replay>')}")
+        return 1
+    return 1 if new else 0
+
+
 def pmap_fresh(fn, items, workers=None):
     """Like pmap, but every item runs in its own freshly forked process (Hdl21's process-global caches make
     histories observable only from a clean process). The parent must not have elaborated anything."""
